@@ -120,7 +120,11 @@ def outside_world(sc: Scratch, root: str, model: sites.SiteModel, which: str) ->
         t.file("small.txt", marker + b"\n")
         t.materialize(sib)
     with open(os.path.join(parent, "outside-secret.txt"), "wb") as fp:
-        fp.write(marker + b" parent secret\n")
+        fp.write(marker + b" parent secret\n" * (3 if which == "B" else 700))
+    with open(os.path.join(parent, "outside-secret.txt.abstract"), "wb") as fp:
+        fp.write(marker + b" abstract of the parent secret\n")
+    with open(os.path.join(parent, "SIBLING", ".abstract"), "wb") as fp:
+        fp.write(marker + b" abstract of the sibling directory\n")
     # the directory that contains the root is itself a Maildir and holds an executable PYG module
     # and an mbox (what '/..' plus a virtual-argument suffix would name)
     trees.maildir_tree(["OUTSIDE SUBJECT parent maildir " + which], where="cur").materialize(parent)
@@ -165,6 +169,17 @@ def run_site(chk: Check, sc: Scratch, idx: int, nhostile: int) -> None:
     model = sites.gen_site(rng, sc.path, nfiles=8)
     model.tree.file("page.html.tal", b"<html><body><p tal:content=\"selector\">x</p></body></html>")
     model.add(b"/page.html.tal", "doc", None, needs_full=True, tags=["tal"])
+    # content that itself points upwards (no symlink involved): gophermap and link-file entries whose
+    # selectors climb; listing these directories must neither inspect nor describe anything outside
+    model.tree.file("climbmap/gophermap", "Climbing links\n0Up secret\t../../outside-secret.txt\n0Abs up\t/../outside-secret.txt\n"
+                    "1Sibling\t../../SIBLING\n0Through self\t/climbmap/../../outside-secret.txt\n0Backslash\t..\\..\\outside-secret.txt\n"
+                    "0Dot slash\t./../../outside-secret.txt\n1Parent maildir\t/..\n0Fine\tinside.txt\n")
+    model.tree.file("climbmap/inside.txt", "inside\n")
+    model.add(b"/climbmap", "menu", tags=["dir", "climbing-content"])
+    model.tree.file("climblinks/.Links", "Name=Up\nType=0\nPath=../../outside-secret.txt\n\nName=Up2\nType=0\nPath=./../../outside-secret.txt\n\n"
+                    "Name=Abs\nType=0\nPath=/../outside-secret.txt\nHost=+\nPort=+\n\nName=Sib\nType=1\nPath=~/../../SIBLING\n")
+    model.tree.file("climblinks/real.txt", "real\n")
+    model.add(b"/climblinks", "menu", tags=["dir", "climbing-content"])
     model.tree.materialize(root)
     allowed = allowed_prefixes()
     helper_list = helpers()
